@@ -60,6 +60,8 @@ class Monitor:
         self._memo = {}
         self._pre = None
         self._popped_cont = None
+        self._own_ra = None
+        self.ret_with_gosub_ok = 0   # returns that correctly dropped active GOSUBs
 
     # -- helpers ---------------------------------------------------------
     def _v(self, kind, pc, detail, **kw):
@@ -167,13 +169,12 @@ class Monitor:
                 acts, viol = r
         op = ent[0]
         act = self.acts[-1]
-        if op in ('ret', 'retv') and act.gosubs:
-            # the routine returns while one of its GOSUBs is active: `ret`
-            # takes the GOSUB's return address for the routine's own
-            self._v('ret-with-active-gosub', pc,
-                    f'{op} with {len(act.gosubs)} active GOSUB return address(es) above the '
-                    f'routine\'s own return address')
-            return
+        self._own_ra = None
+        if op in ('ret', 'retv') and 0 <= act.base < len(cpu.stack):
+            # where this return has to land: the routine's own return
+            # address, whatever GOSUB return addresses lie above it
+            self._own_ra = (cpu.stack[act.base].value, act.base, len(act.gosubs),
+                            getattr(cpu.cur_frame, 'prev_frame', None))
         if op in LOCAL_ACCESS and act.routine is not None:
             cr = m.routine_at(pc)
             if cr is not None and cr is not act.routine:
@@ -223,8 +224,21 @@ class Monitor:
             if acts and not viol and acts[0][0] == 'enter':
                 cont = (acts[0][2], acts[0][3])
             self.acts.append(Act(m.frame_of.get(pc), len(cpu.stack) - 1, cpu.cur_frame, cont))
-        elif op in ('ret', 'retv') and not dispatched and cpu.cur_frame is not frame0:
-            if len(self.acts) > 1:
+        elif op in ('ret', 'retv') and not dispatched:
+            own = self._own_ra
+            if own is not None:
+                ra, base, ngos, prev = own
+                want_depth = base + (1 if op == 'retv' else 0)
+                if npc != ra or len(cpu.stack) != want_depth or cpu.cur_frame is not prev:
+                    self._v('ret-with-active-gosub' if ngos else 'bad-return', pc,
+                            f'{op} with {ngos} active GOSUB(s): lands at pc {npc} with '
+                            f'{len(cpu.stack)} stack cells, the routine\'s own return address is '
+                            f'{ra} and {want_depth} cells belong to the caller'
+                            + ('' if cpu.cur_frame is prev else '; wrong frame restored'))
+                    return
+                if ngos:
+                    self.ret_with_gosub_ok += 1
+            if cpu.cur_frame is not frame0 and len(self.acts) > 1:
                 self._popped_cont = self.acts.pop().cont
         elif op == 'call' and not dispatched and npc not in m.frame_of:
             act.gosubs.append(len(cpu.stack) - 1)
